@@ -207,9 +207,18 @@ class RealGen:
                 self.feats.add("comment")
             body.append(r.choice(["", "\n", "\n  ", " "]))
         post = ""
-        if r.random() < 0.1:
-            post = "\n<!-- trailing -->"
-            self.feats.add("comment")
+        # epilogue: anything XML allows after the root element (comments, processing instructions, white space), in any mix
+        for _ in range(r.choice([0, 0, 0, 1, 1, 2, 3, 5])):
+            k = r.random()
+            if k < 0.4:
+                post += r.choice(["\n", ""]) + "<!--%s-->" % r.choice([" trailing ", "x", " a -- b ".replace("--", "- -"), ""])
+                self.feats.add("epilog.comment")
+            elif k < 0.8:
+                post += r.choice(["\n", ""]) + "<?%s %s?>" % (r.choice(["after-root", "xml-stylesheet", "php"]), r.choice(["x", "href='b.css'", "a > b", ""]))
+                self.feats.add("epilog.pi")
+            else:
+                post += r.choice(["\n", " ", "  \n", "\t\n"])
+                self.feats.add("epilog.ws")
         if r.random() < 0.1:
             post += "\n"
         doc = pre + "<svg%s>%s</svg>%s" % (ra, "".join(body), post)
